@@ -304,6 +304,75 @@ func c12exec(c *h.Ctx, cs *h.Case) {
 					obs = c12dump(t)
 				}
 				check(ro, t, c12want{"nary", n, N, n, 0, true}, "")
+			case (len(tk) == 5 && tk[1] == "lt.bigtree") || (len(tk) == 3 && tk[1] == "lt.tree"):
+				// the LocalTest wrappers local clusters and simulations go through: fresh servers,
+				// roster in creation order, then the roster's generator
+				var nodes, nsrv, bf int
+				var ok1, ok2, ok3 bool
+				if tk[1] == "lt.tree" {
+					nsrv, ok1 = atoi(tk[2])
+					nodes, bf, ok2, ok3 = nsrv, 2, true, true
+				} else {
+					nodes, ok1 = atoi(tk[2])
+					nsrv, ok2 = atoi(tk[3])
+					bf, ok3 = atoi(tk[4])
+				}
+				if !ok1 || !ok2 || !ok3 || nsrv == 0 || nsrv > 64 {
+					return
+				}
+				if tk[1] == "lt.bigtree" && bf == 0 && nodes > 1 {
+					obs = "hang" // see `big`: not run
+					return
+				}
+				l := onet.NewLocalTest(fix.Suite)
+				l.Check = onet.CheckNone
+				defer l.CloseAll()
+				var servers []*onet.Server
+				var ro *onet.Roster
+				var t *onet.Tree
+				done := make(chan interface{}, 1)
+				go func() {
+					defer func() { done <- recover() }()
+					if tk[1] == "lt.tree" {
+						servers, ro, t = l.GenTree(nsrv, nsrv%2 == 0)
+					} else {
+						servers, ro, t = l.GenBigTree(nodes, nsrv, bf, (nodes+nsrv)%2 == 0)
+					}
+				}()
+				select {
+				case r := <-done:
+					if r != nil {
+						panic(r)
+					}
+				case <-time.After(c12bigTimeout(nodes) + 5*time.Second):
+					obs = "hang"
+					hung = true
+					cs.Fail("lt-hang", "the LocalTest generator did not return — "+op)
+					return
+				}
+				if t == nil {
+					obs = "none"
+				} else {
+					obs = c12dump(t)
+				}
+				if len(servers) != nsrv || ro == nil || len(ro.List) != nsrv {
+					cs.Fail("lt-servers", fmt.Sprintf("%d servers / roster of %d asked for, got %d", nsrv, nsrv, len(servers)))
+					return
+				}
+				for i, srv := range servers {
+					if !ro.List[i].Equal(srv.ServerIdentity) {
+						cs.Fail("lt-roster-order", "the roster does not list the servers in the order they were created")
+						return
+					}
+				}
+				if t != nil && l.Trees[t.ID] != t {
+					cs.Fail("lt-tree-unlisted", "the generated tree is not recorded in LocalTest.Trees")
+				}
+				gen := "big"
+				if tk[1] == "lt.tree" {
+					gen = "nary"
+				}
+				check(ro, t, c12want{gen, nsrv, bf, nodes, 0, tk[1] == "lt.tree"}, "")
 			case len(tk) == 5 && tk[1] == "big":
 				N, ok1 := atoi(tk[2])
 				nodes, ok2 := atoi(tk[3])
@@ -465,12 +534,42 @@ func c12gen(c *h.Ctx, yield func(*h.Case)) {
 		}
 		emit("big sampled", ops)
 	}
+	// --- the LocalTest wrappers (GenTree, GenBigTree): node counts below, at and above the number
+	// of servers ---------------------------------------------------------------------------------
+	{
+		var ops []string
+		for nsrv := 1; nsrv <= c.Pick(5, 7); nsrv++ {
+			ops = append(ops, fmt.Sprintf("c12 lt.tree %d", nsrv))
+			for _, nodes := range []int{1, nsrv - 2, nsrv - 1, nsrv, nsrv + 1, 2*nsrv + 1} {
+				if nodes >= 1 {
+					ops = append(ops, fmt.Sprintf("c12 lt.bigtree %d %d %d", nodes, nsrv, 1+(nodes+nsrv)%3))
+				}
+			}
+			if len(ops) >= 12 {
+				emit("localtest wrappers", ops)
+				ops = nil
+			}
+		}
+		if len(ops) > 0 {
+			emit("localtest wrappers", ops)
+		}
+	}
+	for i := 0; i < c.Pick(6, 60); i++ {
+		var ops []string
+		for j := 0; j < 5; j++ {
+			nsrv := 1 + r.Intn(c.Pick(8, 20))
+			ops = append(ops, fmt.Sprintf("c12 lt.bigtree %d %d %d", 1+r.Intn(3*nsrv), nsrv, 1+r.Intn(4)))
+		}
+		ops = append(ops, fmt.Sprintf("c12 lt.tree %d", 1+r.Intn(c.Pick(8, 20))))
+		emit("localtest wrappers sampled", ops)
+	}
 	// --- boundary: N = 0 (outside the property's domain; model and code must still agree) and
 	// malformed lines ------------------------------------------------------------------------------
 	emit("boundary", []string{"c12 nary 1 0 0", "c12 nary 2 0 0", "c12 nary 5 0 3", "c12 big 0 1 0,1", "c12 big 0 3 0,1",
 		"c12 big 2 0 0,1,2", "c12 star 1", "c12 star 2", "c12 binary 1"})
 	emit("malformed", []string{"c12 nary 0 2 0", "c12 nary 3 2 3", "c12 nary 3 2", "c12 nary a 2 0", "c12 big 2 5", "c12 big 2 5 -",
-		"c12 big 2 x 0,1", "c12 binary 0", "c12 star", "c12 tree 3"})
+		"c12 big 2 x 0,1", "c12 binary 0", "c12 star", "c12 tree 3",
+		"c12 lt.tree 0", "c12 lt.bigtree 3 0 2", "c12 lt.bigtree 3 2", "c12 lt.tree x"})
 }
 
 func init() {
